@@ -1,0 +1,46 @@
+//go:build verif
+
+// Package verifhook provides yield points and counters for the external
+// verification harness. With the "verif" build tag off every function is an
+// empty, inlinable no-op.
+package verifhook
+
+import (
+	"context"
+	"sync"
+	"sync/atomic"
+)
+
+var hook atomic.Pointer[func(ctx context.Context, name string)]
+
+// Set installs (or, with nil, removes) the callback run at every Point.
+func Set(f func(ctx context.Context, name string)) {
+	if f == nil {
+		hook.Store(nil)
+		return
+	}
+	hook.Store(&f)
+}
+
+// Point is a named yield point on the calling goroutine.
+func Point(ctx context.Context, name string) {
+	if f := hook.Load(); f != nil {
+		(*f)(ctx, name)
+	}
+}
+
+var counters sync.Map // name -> *atomic.Int64
+
+// Count increments the named counter.
+func Count(name string) {
+	c, _ := counters.LoadOrStore(name, new(atomic.Int64))
+	c.(*atomic.Int64).Add(1)
+}
+
+// Counter returns the current value of the named counter.
+func Counter(name string) int64 {
+	if c, ok := counters.Load(name); ok {
+		return c.(*atomic.Int64).Load()
+	}
+	return 0
+}
